@@ -29,6 +29,7 @@ type c06Case struct {
 	EditedPkg string            `json:"edited_pkg,omitempty"`
 	Observed  []string          `json:"observed_pkgs,omitempty"` // package dirs whose diagnostics must not change
 	ScanTests bool              `json:"scan_tests,omitempty"`    // drivers: run everything with scan-tests on
+	Exclude   []string          `json:"exclude,omitempty"`       // drivers: exclude-paths entries (directories of the program)
 }
 
 func diagLine(d engine.Diag) string {
@@ -66,6 +67,11 @@ func c06Drivers(c c06Case) string {
 		// test files are analysed too: their annotations become facts of the test variants
 		cfg.ScanTests = true
 		flags = []string{"--config.scan-tests"}
+	}
+	if len(c.Exclude) > 0 {
+		// an excluded dependency exports no facts, whichever driver runs
+		cfg.ExcludePaths = c.Exclude
+		flags = append(flags, "--config.exclude-paths="+strings.Join(c.Exclude, ","))
 	}
 	ld, err := engine.Load(prog, engine.VirtualRoot, "go1.23")
 	if err != nil {
@@ -375,6 +381,11 @@ func TestC06(t *testing.T) {
 			}
 			if dc.ScanTests = rapid.IntRange(0, 9).Draw(rt, "driversScanTests") < 3; dc.ScanTests {
 				ev.Class(id, "relation drivers with scan-tests on")
+			}
+			if rapid.IntRange(0, 9).Draw(rt, "driversExclude") < 3 {
+				dirs := pkgDirs(p)
+				dc.Exclude = []string{"/" + dirs[rapid.IntRange(0, len(dirs)-1).Draw(rt, "excludedDir")] + "/"}
+				ev.Class(id, "relation drivers with a package directory excluded")
 			}
 			if why := c06Drivers(dc); why != "" {
 				violation(rt, id, "c06", "drivers", p.Size(), dc, "drivers disagree: %s", why)
